@@ -134,4 +134,26 @@ META = {
         'note': 'Not covered: exact text of SEQUENCE/SET/OF, BIT/OCTET STRING, REAL; injectivity of the notation is argued, not proved.',
         'technique': 'contracts against RFC 3641 spec functions + VC generation over the python ast, z3 strings',
     },
+    'C02': {
+        'not_applicable': 'JER/XER correctness is a statement about the documents json.dumps/json.loads, float repr and '
+            'xml.etree.ElementTree (tostring / fromstring, escaping of <, &, quotes) produce and accept: every step that decides '
+            'well-formedness and round-trip happens inside those C/stdlib functions, for which a contract could only be assumed, '
+            'never discharged, and the JSON/XML grammars over unbounded strings and IEEE-754 repr/float round-trip are outside what '
+            'z3/cvc5 decide (string-theory queries over replace chains and int(s[a:b]) already stay unknown).  Contracts on the thin '
+            'asn1tools mapping code alone would prove nothing the property states; a differential fuzzer would decide it but is a '
+            'different technique family.',
+    },
+    'C09': {
+        'not_applicable': 'The property is about the behaviour of C programs that asn1tools/source/c/uper.py emits as text for every '
+            'accepted specification (equivalence with the Python UPER codec, buffer errors, memory safety).  A contract on the Python '
+            'generator can only speak about the strings it returns; stating C semantics of those strings needs a deductive C '
+            'verifier (Frama-C/WP, VST, VeriFast) and none is installed, and a proof would have to be generic over all generated '
+            'programs (a verified compiler), which is not within reach of per-function contracts.  Compile-and-compare under '
+            'ASan/UBSan would decide instances but is differential testing, not this family.',
+    },
+    'C10': {
+        'not_applicable': 'Same situation as C09 for asn1tools/source/c/oer.py: the subject is the generated C text (extension-addition '
+            'presence masks, skipping of unknown additions, buffer-size errors, absence of UB), not a Python function result that a '
+            'contract can constrain; no deductive verifier for C is installed and the claim quantifies over all generated programs.',
+    },
 }
